@@ -2,6 +2,8 @@ package system
 
 import (
 	"errors"
+	"os"
+	"syscall"
 )
 
 func zzH04c() {
@@ -36,7 +38,26 @@ func zzH04c() {
 	}
 	zzAssert(v == want, "true-iff-content-is-1-newline")
 	enable := zzNondetChoice("enable", 2) == 1
-	zzAssert(setIPv6Autoconf("eth7", enable) == nil, "write-ok")
+	// the kernel's answer to the write: ok, permission denied (no
+	// CAP_NET_ADMIN), or no such file (the interface vanished). The dialer
+	// tells these apart with errors.Is (C11: tolerated on restore), so the
+	// accessor must hand them up recognisably.
+	zzWriteErr = nil
+	switch zzNondetChoice("write.outcome", 3) {
+	case 1:
+		zzWriteErr = syscall.EACCES
+	case 2:
+		zzWriteErr = syscall.ENOENT
+	}
+	werr := setIPv6Autoconf("eth7", enable)
+	if zzWriteErr != nil {
+		zzAssert(werr != nil, "write-error-returned")
+		zzAssert(errors.Is(werr, os.ErrPermission) == (zzWriteErr == syscall.EACCES), "permission-denied-stays-recognisable")
+		zzAssert(errors.Is(werr, os.ErrNotExist) == (zzWriteErr == syscall.ENOENT), "vanished-interface-stays-recognisable")
+		zzWriteErr = nil
+		return
+	}
+	zzAssert(werr == nil, "write-ok")
 	zzAssert(zzWritePath == "/proc/sys/net/ipv6/conf/eth7/autoconf", "writes-this-interfaces-autoconf-sysctl")
 	zzAssert(len(zzWriteData) == 1 && zzWriteData[0] == map[bool]byte{false: '0', true: '1'}[enable], "writes-0-or-1")
 }
